@@ -1,34 +1,302 @@
 package c16
 
 import (
+	"bytes"
+	"context"
+	"fmt"
 	"strconv"
 	"strings"
+	"sync"
 	"unicode/utf8"
 
+	"github.com/robfig/soy/soyjs"
+
 	"verif/core"
+	"verif/jsrun"
 )
 
-type jsCase struct {
-	d    Dir
-	s    string
-	pre  bool // the library function applied to escapeHtml(s) (the documented composition)
-	call JSJob
+// The JavaScript counterpart of a directive is the code soyjs GENERATES for
+// {$x|directive:args}: since the generator applies chains in written order and
+// escapes the input of changeNewlineToBr / insertWordBreaks itself, the bare
+// soy.$$ library functions are only the counterpart where the contract is
+// theirs alone.
+//
+//	family "js"                 : soyjs.Write of a one-print template with autoescape="false", run in node
+//	                              (every directive instance and every exported pair)
+//	family "js-autoescape-on"   : the same print in a template with autoescaping on
+//	family "js-lib"             : soy.$$escapeUri / $$escapeJsString / $$truncate called directly
+//	family "js-lib-on-escaped"  : soy.$$insertWordBreaks / $$changeNewlineToBr applied to soy.$$escapeHtml(x):
+//	                              must change nothing but the breaks and never split a reference
+
+// JSTemplate is the one-print template whose generated JavaScript is run.
+func JSTemplate(chainText string, escapeOn bool) string {
+	a := ` autoescape="false"`
+	if escapeOn {
+		a = ""
+	}
+	return "{namespace t}\n/** @param x */\n{template .m" + a + "}\n{$x" + chainText + "}\n{/template}\n"
 }
 
-// JSCounterparts runs the soy.$$ functions of soyutils.js (the names come
-// from the real table soyjs.PrintDirectives) on the adversarial strings under
-// the same contracts.
-//
-//	family "js"               : the call soyjs emits for {$x|d} (the directive applied to the data)
-//	family "js-lib-on-escaped": changeNewlineToBr / insertWordBreaks applied to escapeHtml(x):
-//	                            must change nothing but the breaks and never split a reference
-func JSCounterparts(ctx *core.Ctx) {
+// GenerateJS compiles the template with the real compiler and translates it
+// with the real soyjs back end.
+func GenerateJS(src string) (js string, err error) {
+	defer func() {
+		if p := recover(); p != nil {
+			err = fmt.Errorf("PANIC in soyjs.Write: %v", p)
+		}
+	}()
+	comp, cerr, _ := core.Compile([]core.File{{Name: "t.soy", Text: src}}, nil)
+	if cerr != nil {
+		return "", fmt.Errorf("compile: %v", cerr)
+	}
+	var buf bytes.Buffer
+	for _, sf := range comp.Registry.SoyFiles {
+		if err := soyjs.Write(&buf, sf, soyjs.Options{}); err != nil {
+			return "", fmt.Errorf("soyjs.Write: %v", err)
+		}
+	}
+	return buf.String(), nil
+}
+
+type genResult struct {
+	ok  bool
+	wf  bool
+	out string
+	err string
+}
+
+// runGenerated runs the generated JavaScript of {$x|chain} on every string.
+func runGenerated(pool *jsrun.Pool, chainText string, escapeOn bool, strs []string) ([]genResult, string, error) {
+	src := JSTemplate(chainText, escapeOn)
+	js, err := GenerateJS(src)
+	if err != nil {
+		return nil, "", err
+	}
+	req := jsrun.Request{Sources: []jsrun.Source{{Name: "t.soy.js", Code: js}}}
+	for _, s := range strs {
+		req.Calls = append(req.Calls, jsrun.Call{Fn: "t.m", Data: map[string]interface{}{"x": s}})
+	}
+	resp, err := pool.Run(req)
+	if err != nil {
+		return nil, js, err
+	}
+	if !resp.Loaded() {
+		return nil, js, fmt.Errorf("generated JavaScript does not load: %+v", resp.Sources)
+	}
+	out := make([]genResult, len(strs))
+	for i, c := range resp.Calls {
+		out[i] = genResult{ok: c.OK, wf: c.U16 == nil, out: c.Out, err: c.Err}
+	}
+	return out, js, nil
+}
+
+func cancelsDoc(name string) bool { return name != "truncate" }
+
+// JSCounterparts runs the generated JavaScript and the library functions
+// under the contracts.
+func JSCounterparts(ctx *core.Ctx, e *Export) {
 	var strs []string
 	for _, s := range AdversarialStrings(ctx.Thorough()) {
 		if utf8.ValidString(s) && len(s) <= 20000 {
 			strs = append(strs, s)
 		}
 	}
+	pool, err := jsrun.NewPool(context.Background(), 6)
+	if err != nil {
+		ctx.ToolError("JS counterparts: %v", err)
+		return
+	}
+	defer pool.Close()
+	ctx.Extra["js_engine"] = pool.Engine()
+
+	var chains [][]Dir
+	for _, d := range GridDirs() {
+		chains = append(chains, []Dir{d})
+	}
+	if e != nil {
+		for _, r := range e.Rows {
+			if len(r.Chain) == 2 {
+				chains = append(chains, r.Chain)
+			}
+		}
+	}
+	// ---- generated code, autoescape="false" and on
+	type res struct {
+		off, on []genResult
+		js      string
+	}
+	results := make([]res, len(chains))
+	var wg sync.WaitGroup
+	sem := make(chan struct{}, 6)
+	var toolMu sync.Mutex
+	toolErrs := 0
+	for ci := range chains {
+		wg.Add(1)
+		sem <- struct{}{}
+		go func(ci int) {
+			defer wg.Done()
+			defer func() { <-sem }()
+			ct := ChainText(chains[ci])
+			off, js, err := runGenerated(pool, ct, false, strs)
+			if err == nil {
+				results[ci].off, results[ci].js = off, js
+				if len(chains[ci]) == 1 {
+					results[ci].on, _, err = runGenerated(pool, ct, true, strs)
+				}
+			}
+			if err != nil {
+				toolMu.Lock()
+				toolErrs++
+				if toolErrs <= 3 {
+					ctx.ToolError("generated JS for {$x%s}: %v", ct, err)
+				}
+				toolMu.Unlock()
+			}
+		}(ci)
+	}
+	// the plain print {$x} with autoescaping on (the escaper soyjs prepends)
+	var plainOn []genResult
+	wg.Add(1)
+	go func() {
+		defer wg.Done()
+		var err error
+		plainOn, _, err = runGenerated(pool, "", true, strs)
+		if err != nil {
+			ctx.ToolError("generated JS for {$x}: %v", err)
+		}
+	}()
+	wg.Wait()
+
+	singleOff := map[string][]genResult{} // chain text of a single directive -> results
+	for ci, ch := range chains {
+		if len(ch) == 1 {
+			singleOff[ChainText(ch)] = results[ci].off
+		}
+	}
+	var lines []traceLine
+	var n int64
+	judge := func(family string, chain []Dir, s, in string, inVal map[string]interface{}, r genResult, js string) {
+		n++
+		if s != "" {
+			ctx.Distinct(family + "|" + ChainText(chain) + "|" + s)
+		}
+		last := chain[len(chain)-1]
+		mid := ""
+		if len(chain) == 2 {
+			mid = in
+		}
+		fault := ""
+		switch {
+		case !r.ok:
+			fault = "error"
+		case !r.wf:
+			fault = "invalid-utf16"
+		default:
+			fault = Contract(last, inVal, in, r.out)
+		}
+		if fault != "" && fault != "unspec" {
+			report(ctx, family, chain, core.VStr(s), s, mid, r.out, fault, "contract of the last directive on the string returned by the generated JavaScript: "+firstLine(js)+" "+r.err)
+		}
+	}
+	for ci, ch := range chains {
+		off := results[ci].off
+		if off == nil {
+			continue
+		}
+		ct := ChainText(ch)
+		for si, s := range strs {
+			if !inRange(ch) {
+				continue
+			}
+			in, inVal := s, core.VStr(s)
+			if len(ch) == 2 {
+				first := singleOff[ChainText(ch[:1])]
+				if first == nil || !first[si].ok || !first[si].wf {
+					continue // the first directive is judged by itself
+				}
+				in, inVal = first[si].out, core.VStr(first[si].out)
+			}
+			judge("js", ch, s, in, inVal, off[si], results[ci].js)
+			if len(ch) == 1 && len(lines) < ctx.Pick(3000, 12000) && (si+ci)%3 == int(ctx.Seed%3) &&
+				off[si].ok && off[si].wf && TLCSafe(s) && TLCSafe(off[si].out) && len(s) <= 64 {
+				lines = append(lines, traceLine{ch, core.VStr(s), false, off[si].out, ""})
+			}
+			// autoescaping on: a cancelling directive writes the same bytes; truncate's result is escaped
+			if on := results[ci].on; on != nil && off[si].ok && off[si].wf {
+				n++
+				fault := ""
+				switch {
+				case !on[si].ok:
+					fault = "error"
+				case cancelsDoc(ch[0].Name):
+					if on[si].out != off[si].out {
+						fault = "changed-on-top"
+					}
+				default:
+					fault = HTMLFault(on[si].out, off[si].out)
+				}
+				if fault != "" {
+					sig := core.Sig{Family: "js-autoescape-on", Feature: "directive=" + ch[0].Name + "," + fault}
+					if reporter.First(sig) {
+						ctx.Violation(sig, fmt.Sprintf("generated JS for {$x%s} with autoescaping on, x=%s wrote %s; with autoescape=\"false\" %s: %s",
+							ct, strconv.Quote(clip(s)), strconv.Quote(clip(on[si].out)), strconv.Quote(clip(off[si].out)), fault),
+							map[string]interface{}{"kind": "c16-js-on", "template": JSTemplate(ct, true), "x_go_quoted": strconv.Quote(clip(s))})
+					}
+				}
+			}
+		}
+	}
+	for si, s := range strs {
+		if plainOn == nil {
+			break
+		}
+		n++
+		r := plainOn[si]
+		fault := ""
+		if !r.ok {
+			fault = "error"
+		} else if f := HTMLFault(r.out, s); f != "" {
+			fault = f
+		}
+		if fault != "" {
+			sig := core.Sig{Family: "js-autoescape-on", Feature: "plain-print," + fault}
+			if reporter.First(sig) {
+				ctx.Violation(sig, fmt.Sprintf("generated JS for {$x} with autoescaping on, x=%s wrote %s: %s", strconv.Quote(clip(s)), strconv.Quote(clip(r.out)), fault),
+					map[string]interface{}{"kind": "c16-js-on", "template": JSTemplate("", true), "x_go_quoted": strconv.Quote(clip(s))})
+			}
+		}
+	}
+	ctx.AddEvals(n)
+	ctx.AddTraces(n)
+	ctx.Extra["js_generated_cases"] = n
+	ctx.Extra["js_generated_chains"] = len(chains)
+	if len(results) > 0 {
+		ctx.Sample(map[string]interface{}{"family": "js", "template": JSTemplate("|insertWordBreaks:3", false), "generated": results[0].js})
+	}
+	if len(lines) > 0 {
+		validate(ctx, "js", lines)
+	}
+	jsLibrary(ctx, strs)
+}
+
+func firstLine(js string) string {
+	for _, l := range strings.Split(js, "\n") {
+		if strings.Contains(l, "output +=") {
+			return strings.TrimSpace(l)
+		}
+	}
+	return ""
+}
+
+type jsCase struct {
+	d    Dir
+	s    string
+	pre  bool
+	call JSJob
+}
+
+// jsLibrary calls the library functions whose contract is theirs alone.
+func jsLibrary(ctx *core.Ctx, strs []string) {
 	var cases []jsCase
 	add := func(d Dir, s string, pre bool, args ...interface{}) {
 		j := JSJob{Op: "call", Fn: JSName(d.Name), Args: append([]interface{}{s}, args...)}
@@ -39,19 +307,15 @@ func JSCounterparts(ctx *core.Ctx) {
 	}
 	none := []map[string]interface{}{}
 	for _, s := range strs {
-		for _, n := range []string{"escapeHtml", "escapeUri", "escapeJsString", "json"} {
+		for _, n := range []string{"escapeHtml", "escapeUri", "escapeJsString"} {
 			add(Dir{Name: n, Args: none}, s, false)
 		}
-		add(Dir{Name: "changeNewlineToBr", Args: none}, s, false)
 		add(Dir{Name: "changeNewlineToBr", Args: none}, s, true)
 		for _, n := range []int{1, 2, 3, 5, 30} {
-			d := Dir{Name: "insertWordBreaks", Args: []map[string]interface{}{intArg(n)}}
-			add(d, s, false, n)
-			add(d, s, true, n)
+			add(Dir{Name: "insertWordBreaks", Args: []map[string]interface{}{intArg(n)}}, s, true, n)
 		}
 		for _, n := range []int{1, 2, 3, 4, 5, 8, 16, 100} {
 			for _, ell := range []bool{true, false} {
-				// soyjs passes doAddEllipsis=true when the template gives one argument
 				add(Dir{Name: "truncate", Args: []map[string]interface{}{intArg(n), boolArg(ell)}}, s, false, n, ell)
 			}
 		}
@@ -60,22 +324,20 @@ func JSCounterparts(ctx *core.Ctx) {
 	for i := range cases {
 		jobs[i] = cases[i].call
 	}
-	res, engine, err := RunNode(jobs)
+	res, _, err := RunNode(jobs)
 	if err != nil {
-		ctx.ToolError("JS counterparts: %v", err)
+		ctx.ToolError("JS library: %v", err)
 		return
 	}
-	ctx.Extra["js_engine"] = engine
-	escaped := map[string]string{} // JS escapeHtml(s)
+	escaped := map[string]string{}
 	for i, c := range cases {
 		if c.d.Name == "escapeHtml" && res[i].OK {
 			escaped[c.s] = res[i].S
 		}
 	}
-	var lines []traceLine
 	for i, c := range cases {
 		r := res[i]
-		family := "js"
+		family := "js-lib"
 		if c.pre {
 			family = "js-lib-on-escaped"
 		}
@@ -97,7 +359,6 @@ func JSCounterparts(ctx *core.Ctx) {
 		case c.pre:
 			fault = HTMLDirFault(c.d.Name, c.s, r.S)
 			if fault == "" {
-				// nothing but the breaks may differ from escapeHtml(s)
 				e := escaped[c.s]
 				if c.d.Name == "insertWordBreaks" && strings.ReplaceAll(r.S, "<wbr>", "") != e {
 					fault = "changes-more-than-breaks"
@@ -110,21 +371,53 @@ func JSCounterparts(ctx *core.Ctx) {
 			fault = Contract(c.d, val, c.s, r.S)
 		}
 		if fault != "" && fault != "unspec" {
-			report(ctx, family, chain, val, c.s, "", r.S, fault, "contract of the directive (SoyDirectives.DirContract) on the result of "+c.call.Fn+" pre="+strconv.FormatBool(c.pre))
-		}
-		if !c.pre && len(lines) < ctx.Pick(3000, 12000) && i%3 == int(ctx.Seed%3) && TLCSafe(c.s) && TLCSafe(r.S) && r.WF && len(c.s) <= 64 {
-			lines = append(lines, traceLine{chain, val, false, r.S, ""})
+			report(ctx, family, chain, val, c.s, "", r.S, fault, "contract of the directive on the result of "+c.call.Fn+" pre-escaped="+strconv.FormatBool(c.pre))
 		}
 	}
-	ctx.Extra["js_cases"] = len(cases)
-	if len(lines) > 0 {
-		validate(ctx, "js", lines)
-	}
+	ctx.Extra["js_library_calls"] = len(cases)
 }
 
 // jsReplay re-runs a saved JS case.
 func jsReplay(ctx *core.Ctx, rc replayCase, s string) {
 	d := rc.Chain[len(rc.Chain)-1]
+	if rc.Engine == "js" {
+		pool, err := jsrun.NewPool(context.Background(), 1)
+		if err != nil {
+			ctx.ToolError("replay: %v", err)
+			return
+		}
+		defer pool.Close()
+		out, js, err := runGenerated(pool, ChainText(rc.Chain), false, []string{s})
+		if err != nil {
+			ctx.ToolError("replay: %v", err)
+			return
+		}
+		in := s
+		mid := ""
+		if len(rc.Chain) == 2 {
+			first, _, err := runGenerated(pool, ChainText(rc.Chain[:1]), false, []string{s})
+			if err != nil || !first[0].ok {
+				ctx.ToolError("replay: first directive: %v", err)
+				return
+			}
+			in, mid = first[0].out, first[0].out
+		}
+		ctx.AddEvals(1)
+		fault := ""
+		switch {
+		case !out[0].ok:
+			fault = "error"
+		case !out[0].wf:
+			fault = "invalid-utf16"
+		default:
+			fault = Contract(d, core.VStr(in), in, out[0].out)
+		}
+		fmt.Printf("replay: %s x=%s -> %s fault=%q\n", firstLine(js), strconv.Quote(clip(s)), strconv.Quote(clip(out[0].out)), fault)
+		if fault != "" && fault != "unspec" {
+			report(ctx, "js", rc.Chain, core.VStr(s), s, mid, out[0].out, fault, "replay")
+		}
+		return
+	}
 	args := []interface{}{s}
 	for _, a := range d.Args {
 		args = append(args, a["v"])
@@ -149,7 +442,7 @@ func jsReplay(ctx *core.Ctx, rc replayCase, s string) {
 	} else {
 		fault = Contract(d, core.VStr(s), s, res[0].S)
 	}
-	println("replay:", j.Fn, strconv.Quote(clip(s)), "->", strconv.Quote(clip(res[0].S)), "fault="+fault)
+	fmt.Println("replay:", j.Fn, strconv.Quote(clip(s)), "->", strconv.Quote(clip(res[0].S)), "fault="+fault)
 	if fault != "" && fault != "unspec" {
 		report(ctx, rc.Engine, rc.Chain, core.VStr(s), s, "", res[0].S, fault, "replay")
 	}
